@@ -1014,6 +1014,15 @@ func (g *G) stmt() []Stmt {
 		if g.chance("print-counter", 60) {
 			s.Body = append([]Stmt{&Print{X: &Ref{Name: v, T: ct}}}, s.Body...)
 		}
+		if g.inFunc != nil && g.chance("for-early-return", 25) {
+			var r Stmt = &Return{}
+			if g.inFunc.Ret != nil {
+				r = &Return{X: g.Expr(g.inFunc.Ret, d)}
+			}
+			s.Body = append(s.Body, &If{Cond: g.Expr(TBool, 1), Then: []Stmt{r}})
+			g.feat("early-return")
+			g.feat("early-return:inside-for")
+		}
 		g.loop--
 		g.pop()
 		g.feat("for:" + ct.Src())
@@ -1039,6 +1048,19 @@ func (g *G) stmt() []Stmt {
 		g.loop++
 		s.Body = g.block(g.intn("each-n", 1, 2))
 		s.Body = append(g.printVar(varInfo{Name: v, T: et}), s.Body...)
+		if g.inFunc != nil && g.chance("each-early-return", 35) {
+			// leave the function from inside the loop (the loop variable and the collection copy are live)
+			var r Stmt = &Return{}
+			if g.inFunc.Ret != nil {
+				r = &Return{X: g.Expr(g.inFunc.Ret, d)}
+			}
+			s.Body = append(s.Body, &If{Cond: g.Expr(TBool, 1), Then: []Stmt{r}})
+			g.feat("early-return")
+			g.feat("early-return:inside-foreach")
+		} else if g.chance("each-break", 20) {
+			s.Body = append(s.Body, &If{Cond: g.Expr(TBool, 1), Then: []Stmt{&Break{}}})
+			g.feat("break")
+		}
 		g.loop--
 		g.pop()
 		g.feat("foreach:" + eqClass(ct))
